@@ -1016,6 +1016,7 @@ func genTxHistory(rng *rand.Rand, steps int, idx int) []string {
 	}
 	var defs []gdef
 	used := map[string]bool{}
+	nextNonce := map[string]uint64{}
 	for i := 0; i < nTx; i++ {
 		var hash []byte
 		for {
@@ -1035,6 +1036,11 @@ func genTxHistory(rng *rand.Rand, steps int, idx int) []string {
 		nonce := uint64(rng.Intn(4))
 		if rng.Intn(3) == 0 {
 			nonce = uint64(rng.Intn(2))
+		}
+		if rng.Intn(10) < 6 {
+			// mostly consecutive nonces per sender so that selections produce long runs
+			nonce = nextNonce[string(sender)]
+			nextNonce[string(sender)]++
 		}
 		switch rng.Intn(30) {
 		case 0:
@@ -1082,8 +1088,23 @@ func genTxHistory(rng *rand.Rand, steps int, idx int) []string {
 			accounts = append(accounts, a)
 		}
 	}
+	easy := false
 	genSession := func() string {
 		var sb strings.Builder
+		if easy {
+			// a benign session: every account resolves, nonce 0, rich; at most one hazard
+			for _, a := range accounts {
+				nonce := 0
+				if rng.Intn(12) == 0 {
+					nonce = 1
+				}
+				fmt.Fprintf(&sb, " a:%s:%d:%s", hx(a), nonce, bigPow2(100))
+			}
+			if rng.Intn(4) == 0 {
+				fmt.Fprintf(&sb, " bad:%s", hx(defs[rng.Intn(len(defs))].hash))
+			}
+			return sb.String()
+		}
 		for _, a := range accounts {
 			if rng.Intn(10) == 0 {
 				fmt.Fprintf(&sb, " a:%s:err", hx(a))
@@ -1129,6 +1150,10 @@ func genTxHistory(rng *rand.Rand, steps int, idx int) []string {
 		return sb.String()
 	}
 	genLimits := func() (uint64, int) {
+		easy = rng.Intn(2) == 0
+		if easy {
+			return pick(rng, ^uint64(0), ^uint64(0), 1000000, 150010, 100, 21), pick(rng, 1000, 1000, 30000, 5, 3, 2)
+		}
 		gas := pick(rng, uint64(0), 1, 10, 21, 50000, 100000, 150010, ^uint64(0), ^uint64(0), ^uint64(0)-1, 1<<63)
 		mx := pick(rng, -1, 0, 1, 2, 3, 5, 1000, 1000, 30000)
 		return gas, mx
@@ -1148,10 +1173,10 @@ func genTxHistory(rng *rand.Rand, steps int, idx int) []string {
 			h = append(h, "clear")
 		case x < 88:
 			gas, mx := genLimits()
-			h = append(h, fmt.Sprintf("sel %d %d %s%s", gas, mx, b01(rng.Intn(12) == 0), genSession()))
+			h = append(h, fmt.Sprintf("sel %d %d %s%s", gas, mx, b01(!easy && rng.Intn(12) == 0), genSession()))
 		case x < 97:
 			gas, mx := genLimits()
-			h = append(h, fmt.Sprintf("selb %d %d %s%s", gas, mx, b01(rng.Intn(12) == 0), genSession()))
+			h = append(h, fmt.Sprintf("selb %d %d %s%s", gas, mx, b01(!easy && rng.Intn(12) == 0), genSession()))
 		default:
 			gas, mx := genLimits()
 			h = append(h, fmt.Sprintf("selperm %d %d %d%s", rng.Int63n(1<<30), gas, mx, genSession()))
